@@ -204,7 +204,7 @@ func TestC10CodecExhaustive(t *testing.T) {
 	bi := intBoundaries()
 	bf := floatBoundaries()
 	ev.Extra("exhaustive_boundary_set_sizes", fmt.Sprintf("%d int64 values, %d float64 values", len(bi), len(bf)))
-	ev.Extra("exhaustive", "every ordered pair of the int64 boundary set at every shift 0..63 and every ordered pair of the float64 boundary set is evaluated (rows are divided among the shards; the exhaustive_* counters are sums over all shards)")
+	ev.Extra("exhaustive_core", "every ordered pair of the int64 boundary set at every shift 0..63 and every ordered pair of the float64 boundary set is evaluated (rows are divided among the shards; the exhaustive_* counters are sums over all shards)")
 	// encodings of every boundary value at every shift, each one checked for its round trip
 	enc := make([][][]byte, len(bi))
 	for i, v := range bi {
